@@ -77,6 +77,8 @@ pub fn gen(idx: u64, rng: &mut Rng, tier: Tier) -> Scn {
     }
     let mut spec = SenderSpec::basic(OtiSpec::new(Scheme::NoCode, 1400, 64, 0, true));
     spec.toi_len = width;
+    // the TSI shares the half-word flag of the LCT header with the TOI: every TSI field length next to every TOI length
+    spec.tsi = *rng.pick(&[1u64, 1, 0xFFFF, 0x1_0000, 0xFFFF_FFFF, 0x1_0000_0000, (1u64 << 48) - 1]);
     spec.toi_initial = initial.map(|v| v.to_string());
     spec.toi_seed = seed.map(|v| v.to_string());
     spec.queues = vec![(0, 2)];
